@@ -101,6 +101,8 @@ def run(ctx):
                   "write templates are %s; every value must be printed as %r" % (tm, sp["line_template"]))
         ctx.floor("D3-TEMPLATE", DISPLAY_SUM, "format sites", len(tm), 3)
         seen = set()
+        adt = fx.adts.get(VAL) or {"variants": []}
+        ity = next((vv["fields"][0]["ty"] for vv in adt["variants"] if vv["name"] == "I" and vv["fields"]), None)
         for p in paths:
             for e in p.events:
                 if e.kind != "call" or not e.path.endswith("write_fmt") or e.bb in seen:
@@ -119,6 +121,14 @@ def run(ctx):
                     v_ok = mentions(ops[1], lambda s: isinstance(s, tuple) and s[0] == "field" and s[2] == 1 and isinstance(s[1], tuple) and s[1][0] == "field" and s[1][1] == ("downcast", item, "Some"))
                     k_in_v = mentions(ops[1], lambda s: isinstance(s, tuple) and s[0] == "field" and s[2] == 0 and isinstance(s[1], tuple) and s[1][0] == "field" and s[1][1] == ("downcast", item, "Some"))
                     ok = k_ok and v_ok and not k_in_v
+                if ok:
+                    # reader/writer type agreement: the value placeholder prints a String or the i64 that from_str parses back
+                    pty = str(([g for g in (ops[1][2] or ()) if not str(g).startswith("'")] or ["?"])[-1]).lstrip("&").strip()
+                    allowed = {"std::string::String", "str", ity}
+                    ctx.check(pty in allowed and ity == sp.get("int_type", "i64"), "D3-TYPE", DISPLAY_SUM, "value-type@bb-in-%s" % sorted(h for h, b in body.loops.items() if e.bb in b),
+                              "value printed as %s" % pty,
+                              "the value placeholder at %s prints a %s and SummaryValue::I holds %s; integer values must be held and printed as %s, the type from_str parses (a negative size would not survive)"
+                              % (body.span_of(e.bb), pty, ity, sp.get("int_type", "i64")), body.span_of(e.bb), nontrivial=False)
                 ctx.check(ok, "D3-BINDING", DISPLAY_SUM, "write@bb-in-%s" % sorted(h for h, b in body.loops.items() if e.bb in b),
                           "placeholders bound to (key, value of that key)",
                           "write at %s does not print (key, value) of the current map item in that order" % body.span_of(e.bb), body.span_of(e.bb))
@@ -161,39 +171,8 @@ def run(ctx):
               "functions other than insert_or_update/insert_or_push mutate Summary.entries: %s (kind consistency of stored values is no longer guaranteed)" % unexpected)
     ctx.floor("D4-WHO-WRITES", "summary::Summary.entries", "writer functions", len(writers_found & set(WRITERS)), 2)
 
-    # (ii)-(iv) accessors
-    counts = {"get": 0, "set": 0, "push": 0}
-    for v in V:
-        for pref, mode in (("", "get"), ("set_", "set"), ("push_", "push")):
-            key = "summary::Summary::%s%s" % (pref, v["stem"])
-            if mode == "push" and v["kind"] != "A":
-                if fx.fn(key) is not None:
-                    ctx.violation("D4-ACCESSOR", key, "pusher-on-scalar", "a pusher exists for the single-valued variable %s" % v["name"], "")
-                continue
-            if fx.fn(key) is None:
-                ctx.violation("D4-ACCESSOR", key, "missing", "public accessor %s not found" % key, "")
-                continue
-            eff = method_effect(ctx, key)
-            body = ctx.body(key)
-            counts[mode] += 1
-            want_callee = {"get": "summary::Summary::get_" + v["kind"].lower(), "set": WRITERS[0], "push": WRITERS[1]}[mode]
-            ok = len(eff) >= 1 and all(c == want_callee and var == v["variant"] and kind == v["kind"] for (c, var, kind, _, _, _) in eff)
-            ctx.check(ok, "D4-ACCESSOR", key, "%s:%s" % (mode, v["name"]),
-                      "%s -> %s(%s, %s)" % (key.split("::")[-1], want_callee.split("::")[-1], v["variant"], v["kind"]),
-                      "%s performs %s; expected %s on variable %s with kind %s" % (key, [(c.split("::")[-1], var, kind) for (c, var, kind, _, _, _) in eff], want_callee.split("::")[-1], v["variant"], v["kind"]),
-                      fn_span(body))
-            if mode in ("set", "push") and ok:
-                # payload carries the caller's argument
-                okp = all(pay is not None and flows_from(p, pay, lambda s: s == ("param", 2)) for (_, _, _, pay, _, p) in eff)
-                ctx.check(okp, "D4-PAYLOAD", key, "%s:%s" % (mode, v["name"]), "stored value is built from the argument",
-                          "%s does not store its argument" % key, fn_span(body))
-            if mode == "get" and ok:
-                okr = all(p.end[1] == e.term for (_, _, _, _, e, p) in eff)
-                ctx.check(okr, "D4-PAYLOAD", key, "get:%s" % v["name"], "getter returns the stored value unchanged",
-                          "%s does not return the reader's result unchanged" % key, fn_span(body))
-    ctx.floor("D4-ACCESSOR", "summary::Summary", "getters", counts["get"], 23)
-    ctx.floor("D4-ACCESSOR", "summary::Summary", "setters", counts["set"], 23)
-    ctx.floor("D4-ACCESSOR", "summary::Summary", "pushers", counts["push"], 6)
+    # (ii)-(iv) accessors (shared with C08)
+    accessors(ctx, V, "D4-ACCESSOR", "D4-PAYLOAD")
 
     # every other call site of the writer/reader primitives anywhere in the crate
     kinds = {v["variant"]: v["kind"] for v in V}
@@ -212,43 +191,5 @@ def run(ctx):
                       ctx.body(key).span_of(e.bb), nontrivial=False)
     ctx.floor("D4-KIND", "summary", "writer/reader call sites", n, 52)
 
-    # the primitives themselves
-    for key in WRITERS:
-        ps = ctx.paths(key)
-        body = ctx.body(key)
-        if not ps:
-            continue
-        ent = [e for p in ps for e in p.calls("HashMap::entry")]
-        ok = bool(ent) and all(strip_refs(e.args[1]) == ("param", 2) for e in ent)
-        ctx.check(ok, "D4-PRIMITIVE", key, "keyed-by-var", "entry(var)", "%s does not address entries by its `var` argument" % key, fn_span(body))
-    ps = ctx.paths(WRITERS[0])
-    if ps:
-        body = ctx.body(WRITERS[0])
-        for i, p in enumerate(ret_paths(ps)):
-            st = [e for e in p.events if e.kind == "store" and strip_refs(e.value) == ("param", 3)]
-            ins = [e for e in p.events if e.kind == "call" and e.name.endswith("VacantEntry::insert") and strip_refs(e.args[1]) == ("param", 3)]
-            ctx.check(bool(st) or bool(ins), "D4-PRIMITIVE", WRITERS[0], "overwrite-%d" % i, "value replaced / inserted with `val`",
-                      "insert_or_update has a path that neither overwrites nor inserts `val`", fn_span(body))
-    ps = ctx.paths(WRITERS[1])
-    if ps:
-        body = ctx.body(WRITERS[1])
-        for i, p in enumerate(ret_paths(ps)):
-            am = [e for e in p.events if e.kind == "call" and e.path.endswith("::and_modify")]
-            oi = [e for e in p.events if e.kind == "call" and e.path.endswith("::or_insert")]
-            ok = len(am) == 1 and len(oi) == 1 and strip_refs(oi[0].args[1]) == ("param", 3) and oi[0].args[0] == am[0].term
-            ctx.check(ok, "D4-PRIMITIVE", WRITERS[1], "modify-or-insert-%d" % i, "entry(var).and_modify(push val).or_insert(val)",
-                      "insert_or_push is not and_modify(..).or_insert(val) on the same entry", fn_span(body))
-        ck = "summary::Summary::insert_or_push::{closure#0}"
-        cps = ctx.paths(ck)
-        for i, p in enumerate(ret_paths(cps or [])):
-            pu = [e for e in p.events if e.kind == "call" and e.path == "summary::SummaryValue::push"]
-            ok = len(pu) == 1 and strip_refs(pu[0].args[0]) == ("param", 2)
-            ctx.check(ok, "D4-PRIMITIVE", ck, "push-%d" % i, "existing.push(val)", "and_modify closure does not push onto the existing value", "")
-    pk = "summary::SummaryValue::push"
-    ps = ctx.paths(pk)
-    if ps:
-        body = ctx.body(pk)
-        oks = ret_paths(ps)
-        good = [p for p in oks if any(e.kind == "call" and e.path.endswith("extend_from_slice") for e in p.events)]
-        ctx.check(len(oks) >= 1 and len(good) == len(oks), "D4-PRIMITIVE", pk, "append", "A.push(A) appends (extend_from_slice) in order",
-                  "SummaryValue::push does not append with extend_from_slice on every returning path", fn_span(body))
+    # the primitives themselves (shared with C08: last-value / append-in-order)
+    primitives(ctx, "D4-PRIMITIVE")
